@@ -9,41 +9,59 @@ open Kv
 returns exactly what the contract prescribes. -/
 theorem inmem_refines_spec (h : Hist) (hm : Monotone 0 h) :
     (runInmem Inmem.new h).2 = (runSpec Spec.new h).2 :=
-  sorry
+  IR.run h IR.new hm
 
 /-- C03.redis_refines_spec: same for the Redis I-model under `RedisOK` (no leading '/', 1 ms TTL
 resolution respected). -/
 theorem redis_refines_spec (h : Hist) (hm : Monotone 0 h) (hr : RedisOK h) :
     (runRedis Redis.new h).2 = (runSpec Spec.new h).2 :=
-  sorry
+  RR.run h RR.new hm hr
 
 /-- C03.backends_agree -/
 theorem backends_agree (h : Hist) (hm : Monotone 0 h) (hr : RedisOK h) :
     (runRedis Redis.new h).2 = (runInmem Inmem.new h).2 :=
-  sorry
+  (redis_refines_spec h hm hr).trans (inmem_refines_spec h hm).symm
 
 /-- contract facts, read off the Spec: Create on a present key reports the stored version -/
 theorem create_reports_stored_version (s : Spec) (now : Nat) (k v : String) (exp : Option Nat) (r : Rec)
-    (h : s.live now k = some r) : s.step now (.create k v exp) = (s, .errExist (some r.ver)) :=
-  sorry
+    (h : s.live now k = some r) : s.step now (.create k v exp) = (s, .errExist (some r.ver)) := by
+  simp only [Spec.step, h]
 
 /-- Get returns the last written value, version and expiry -/
 theorem get_after_put (s : Spec) (now t : Nat) (k v : String) (exp : Option Nat) (ht : now ≤ t)
     (hlive : ∀ e, exp = some e → t ≤ e) :
-    ((s.step now (.put k v exp)).1.step t (.get k)).2 = .record v s.nextVer exp :=
-  sorry
+    ((s.step now (.put k v exp)).1.step t (.get k)).2 = .record v s.nextVer exp := by
+  have _ := ht
+  have hl : (s.write k v exp).1.live t k = some ⟨v, s.nextVer, exp⟩ := by
+    rw [Spec.live_of_get (r := ⟨v, s.nextVer, exp⟩) (by simp only [Spec.write]; exact Store.get_put_self _ _ _)]
+    have : expired ⟨v, s.nextVer, exp⟩ t = false := by
+      unfold expired
+      cases exp with
+      | none => rfl
+      | some e => have := hlive e rfl; simp only [decide_eq_false_iff_not]; omega
+    simp [this]
+  simp only [Spec.step, hl]
 
 /-- CasByVersion distinguishes ErrNotExist from ErrConflict -/
 theorem cas_outcomes (s : Spec) (now : Nat) (k v : String) (ver : Nat) (exp : Option Nat) :
     (s.live now k = none → (s.step now (.cas k ver v exp)).2 = .errNotExist) ∧
     (∀ r, s.live now k = some r → r.ver ≠ ver → (s.step now (.cas k ver v exp)).2 = .errConflict) ∧
-    (∀ r, s.live now k = some r → r.ver = ver → (s.step now (.cas k ver v exp)).2 = .okVer s.nextVer) :=
-  sorry
+    (∀ r, s.live now k = some r → r.ver = ver → (s.step now (.cas k ver v exp)).2 = .okVer s.nextVer) := by
+  refine ⟨fun h => ?_, fun r h hv => ?_, fun r h hv => ?_⟩
+  · simp only [Spec.step, h]
+  · simp only [Spec.step, h, ne_eq, hv, not_false_eq_true, if_true]
+  · simp only [Spec.step, h, ne_eq, hv, not_true_eq_false, if_false, Spec.write]
 
 /-- non-vacuity: the hypotheses are met by a history that exercises expiry on both backends -/
 example : RedisOK [(0, .put "a" "x" (some 5)), (2, .get "a"), (6, .get "a"), (6, .create "a" "y" none), (8, .list "*")] ∧
     (runRedis Redis.new [(0, .put "a" "x" (some 5)), (2, .get "a"), (6, .get "a"), (6, .create "a" "y" none), (8, .list "*")]).2 =
       [.okVer 1, .record "x" 1 (some 5), .errNotExist, .okVer 2, .keys ["a"]] := by
-  sorry
+  have okA : okName "a" := by unfold okName; decide
+  have okStar : okName "*" := by unfold okName; decide
+  constructor
+  · simp only [RedisOK, Op.expiries, Op.names]
+    decide
+  · simp [runRedis, Redis.step, Redis.new, Redis.setRec, RedisSrv.purge, RedisSrv.get, RedisSrv.set, deadlineOf,
+      glob_rKey okStar okA, drop_rKey okA, glob_star, sortStrings, insertSorted]
 
 end C03
